@@ -92,7 +92,8 @@ package types
 //@   sets disp_act_log = store(disp_act_log, disp_act_n, packet.Action)
 //@   sets disp_act_ta = packet.TransferAttributes
 //@   sets-post disp_exit = packet.TransferAttributes.destinationCoin
-//@   modifies bank, events, actcalls, act_ctrl, act_pkt, disp_act_log, disp_act_ta, disp_exit, packet.TransferAttributes.destinationCoin
+//@   sets-post disp_act_err = err
+//@   modifies bank, events, actcalls, act_ctrl, act_pkt, disp_act_log, disp_act_ta, disp_exit, disp_act_err, packet.TransferAttributes.destinationCoin
 //@   ensures[C06] true
 //@   requires[C01] bankNonneg(bank)
 //@   ensures[C01] err == nil ==> bankNonneg(bank) && packet.TransferAttributes != nil
@@ -106,7 +107,8 @@ package types
 //@   sets disp_fwd_ta = packet.TransferAttributes
 //@   sets disp_fwd_fw = packet.Forwarding
 //@   sets disp_fwd_coin = packet.TransferAttributes.destinationCoin
-//@   modifies bank, events, fwdcalls, fwd_ctrl, fwd_pkt, disp_fwd_ta, disp_fwd_fw, disp_fwd_coin, out_n, out_kind, out_cctp, out_cctpc, out_hyp, out_send
+//@   sets-post disp_fwd_err = err
+//@   modifies bank, events, fwdcalls, fwd_ctrl, fwd_pkt, disp_fwd_ta, disp_fwd_fw, disp_fwd_coin, disp_fwd_err, out_n, out_kind, out_cctp, out_cctpc, out_hyp, out_send
 //@   ensures[C06] true
 //   C01 (for the handler that is injected, the forwarder: it checks that the orbiter holds exactly the
 //   running amount before it lets a controller take that amount out).
